@@ -472,6 +472,21 @@ macro_rules! raw_vut {
                             return Err((concat!($fmt, ".collect_holed_range").into(), crate::elem::first_diff(&got, &w)));
                         }
                     }
+                    // zero-copy references: only for stored, non-deleted, non-updated slots; never beyond the stored length
+                    {
+                        let sl0 = v.stored_len();
+                        for i in [sl0.saturating_sub(1), sl0, sl0 + 1, rng.below(l + 2)] {
+                            let got = guarded(concat!($fmt, ".read_ref_at"), || MaybeRefRead::<T>::ref_read(v, i))?;
+                            let Some(got) = got else { break };
+                            *paths += 1;
+                            if let Some(val) = got {
+                                let w = exp.model.get(i).copied().flatten();
+                                if i >= sl0 || w.map(|x| x.bits()) != Some(val.bits()) {
+                                    return Err((concat!($fmt, ".read_ref_at").into(), format!("index {i} (stored {sl0}, len {l}): returned a reference to {val:?}, model has {w:?}")));
+                                }
+                            }
+                        }
+                    }
                     // stored-only paths: agree with each other, and with the shadow when it is known
                     let sl = v.stored_len();
                     let ro = v.read_only_clone();
@@ -611,6 +626,20 @@ macro_rules! compressed_vut {
             }
         }
     };
+}
+
+/// `read_ref_at` where the type offers it (ZeroCopyVec): Some(result) / None = not offered.
+pub trait MaybeRefRead<T> {
+    fn ref_read(&self, _i: usize) -> Option<Option<T>> {
+        None
+    }
+}
+impl<T: Elem + vecdb::ZeroCopyVecValue> MaybeRefRead<T> for BytesVec<usize, T> {}
+impl<T: Elem + vecdb::ZeroCopyVecValue> MaybeRefRead<T> for ZeroCopyVec<usize, T> {
+    fn ref_read(&self, i: usize) -> Option<Option<T>> {
+        let reader = self.create_reader();
+        Some(self.read_ref_at(i, &reader).copied())
+    }
 }
 
 /// Stored-only scans (mmap and file-I/O back-ends) where the type offers them.
